@@ -542,8 +542,188 @@ def r4(ctx, R):
                 R.violation("C03.R4", f.short, k, loc(f, lp), f"an iteration can return to the loop test (via line {getattr(n.ast, 'lineno', lp.lineno)}) without a statement that makes progress on {sorted(V)[:5]}: the loop does not terminate for some document text")
 
 
+# ------------------------------------------------------------------- R5
+DIV_OPS = {"truediv", "floordiv", "mod", "divmod"}
+BIG_OPS = {"pow", "lshift", "truediv", "mul"}
+
+
+def _absorbed_upwards(ctx, f, node, exc, depth=0, seen=None):
+    """exc raised at `node` of f is absorbed there, or at every call site of f
+    (transitively; self-recursive calls do not count)"""
+    from .shared import absorbs
+
+    if absorbs(ctx, node, exc):
+        return True
+    if depth > 5:
+        return False
+    seen = seen or set()
+    if f.qual in seen:
+        return True
+    if f.name in ("parse", "preprocess") and f.cls and "contents_split" in ctx.m.classes[f.cls].fields:
+        return False  # the exception leaves the indexing code: a handler further out only reports "Error during parsing"
+    seen = seen | {f.qual}
+    sites = [(g, c) for g, c, k in ctx.r.callers(f.qual, by_name=False) if g.qual != f.qual and not g.rel.endswith("debug.py")]
+    if not sites:
+        return False
+    return all(_absorbed_upwards(ctx, g, c, exc, depth + 1, seen) for g, c in sites)
+
+
+def r5(ctx, R):
+    R.rule("C03.R5", "evaluating an expression written in a document is total: syntax, arithmetic, type, look-up and depth errors of the evaluator are all absorbed before they can leave the indexing code", floor=2, confirmed=4)
+    idx = indexing_funcs(ctx)
+    tables = {}
+    for rel, consts in ctx.m.consts.items():
+        for name, v in consts.items():
+            if isinstance(v, ast.Dict) and v.values and all(isinstance(x, ast.Attribute) and isinstance(x.value, ast.Name) and x.value.id == "operator" for x in v.values):
+                tables[name] = {x.attr.rstrip("_") for x in v.values}
+    n = 0
+    for f in ctx.m.funcs.values():
+        if f.rel.endswith("debug.py") or (idx and f.qual not in idx and not any(f.qual.startswith(q + ".") for q in idx)):
+            continue
+        recursive = any(f.qual in ctx.r.resolve_call(f, c)[1] for c in calls_in(f.node) if ctx.m.enclosing_func(c) is f)
+        for c in calls_in(f.node):
+            if ctx.m.enclosing_func(c) is not f:
+                continue
+            need = {}
+            d = ctx.m.dotted(f.rel, c.func) if isinstance(c.func, (ast.Name, ast.Attribute)) else None
+            if d in ("ast.parse", "ast.literal_eval") and c.args and not isinstance(c.args[0], ast.Constant):
+                need = {"SyntaxError": "malformed expression", "ValueError": "NUL byte in the text", "RecursionError": "deeply nested expression", "MemoryError": "very long expression"}
+            elif isinstance(c.func, ast.Subscript) and isinstance(c.func.value, ast.Name) and c.func.value.id in tables:
+                ops = tables[c.func.value.id]
+                need = {"TypeError": "operands of unrelated types, e.g. a string and a number"}
+                if ops & DIV_OPS:
+                    need["ZeroDivisionError"] = "`#if A / 0`, `#if N % M` with M undefined (0)"
+                if ops & BIG_OPS:
+                    need["OverflowError"] = "true division of huge integers"
+                F = ctx.facts(f, interproc=False)
+                tested = any(b[0] in ("in",) and c.func.value.id in str(b) for b in (F.at(c) or set())) or any(b[0] == "cond" and b[2] is True and f" in {c.func.value.id}" in b[1] for b in (F.at(c) or set()))
+                if not tested:
+                    need["KeyError"] = "operator not in the table, e.g. `in` / `is`"
+                if recursive:
+                    need["RecursionError"] = "deeply nested expression"
+            if not need:
+                continue
+            n += 1
+            missing = [e for e in need if not _absorbed_upwards(ctx, f, c, e)]
+            k = f"{unparse(c)[:60]} in {key(f, ctx.m.enclosing_stmt(c))[:40]}"
+            if missing:
+                e = missing[0]
+                R.violation("C03.R5", f.short, k, loc(f, c), f"{', '.join(missing)} can be raised here ({need[e]}) and no handler between this call and the parser's caller absorbs it: parse() raises, the file is dropped or left stale")
+            else:
+                R.ok("C03.R5", f.short, k, loc(f, c), f"{', '.join(sorted(need))} absorbed")
+    if n == 0:
+        raise AnalysisError("no expression-evaluation site found in the indexing code")
+
+
+# ------------------------------------------------------------------- R6
+def _optional_returning(ctx, g):
+    rets = [r for r in ctx.m.walk_own(g.node) if isinstance(r, ast.Return)]
+    none = [r for r in rets if r.value is None or (isinstance(r.value, ast.Constant) and r.value.value is None)]
+    vals = [r for r in rets if r not in none]
+    return bool(none) and bool(vals)
+
+
+def r6(ctx, R):
+    from .c04 import parse_func, tag_producers
+    from .shared import absorbs
+
+    R.rule("C03.R6", "a statement reader's payload that can be None (it comes from a helper that returns None for malformed text) is tested before the parser iterates or indexes it", floor=8, confirmed=20)
+    prod, tests = tag_producers(ctx)
+    pf = parse_func(ctx)
+    Fp = ctx.facts(pf, interproc=False)
+    # the dispatch variable and payload variable of the parser
+    arms = {}
+    for n in ctx.m.walk_own(pf.node):
+        if isinstance(n, ast.If) and isinstance(n.test, ast.Compare) and len(n.test.ops) == 1 and isinstance(n.test.ops[0], ast.Eq) and isinstance(n.test.left, ast.Name) and isinstance(n.test.comparators[0], ast.Constant) and isinstance(n.test.comparators[0].value, str) and n.test.left.id == "obj_type":
+            arms[n.test.comparators[0].value] = n
+    payload = "obj_info"
+    for tag, qs in sorted(prod.items()):
+        for q in sorted(qs):
+            f = ctx.m.funcs[q]
+            F = ctx.facts(f, interproc=False)
+            for r in (n for n in ctx.m.walk_own(f.node) if isinstance(n, ast.Return) and isinstance(n.value, ast.Tuple) and len(n.value.elts) == 2 and isinstance(n.value.elts[0], ast.Constant) and n.value.elts[0].value == tag):
+                x = r.value.elts[1]
+
+                def why_nullable(e):
+                    if isinstance(e, ast.Constant) and e.value is None:
+                        return "None"
+                    if isinstance(e, ast.Name):
+                        if any(b[0] == "nonnull" and b[1] == e.id for b in (F.at(r) or set())):
+                            return None
+                        for v in reaching_defs(ctx, f, r, e.id):
+                            if isinstance(v, ast.Constant) and v.value is None:
+                                return "None on one path"
+                            if isinstance(v, ast.Call):
+                                for gq in ctx.r.resolve_call(f, v)[1]:
+                                    g = ctx.m.funcs.get(gq)
+                                    if g is not None and _optional_returning(ctx, g):
+                                        return f"{g.name}() returns None for malformed text"
+                    return None
+
+                # payload objects: nullable constructor arguments become nullable fields
+                if isinstance(x, ast.Call) and ctx.r.resolve_call(f, x)[0] == "ctor" or (isinstance(x, ast.Call) and isinstance(x.func, ast.Name) and x.func.id[:1].isupper()):
+                    for kw in x.keywords:
+                        wn = why_nullable(kw.value) if kw.arg else None
+                        if not wn:
+                            continue
+                        path = f"{payload}.{kw.arg}"
+                        arm = arms.get(tag)
+                        kk = f"{f.name}: field {kw.arg} of the payload of tag {tag!r}"
+                        if arm is None:
+                            continue
+                        badu = None
+                        for n in ast.walk(ast.Module(body=arm.body, type_ignores=[])):
+                            use = None
+                            if isinstance(n, ast.For) and unparse(n.iter) == path:
+                                use = n.iter
+                            elif isinstance(n, (ast.Subscript, ast.Attribute)) and isinstance(n.ctx, ast.Load) and unparse(n.value) == path:
+                                use = n
+                            elif isinstance(n, ast.Call) and isinstance(n.func, ast.Name) and n.func.id in ("len", "iter", "list", "tuple", "sorted", "enumerate") and n.args and unparse(n.args[0]) == path:
+                                use = n
+                            if use is None:
+                                continue
+                            facts = Fp.at(use) or Fp.at(n) or set()
+                            if not any(b[0] == "nonnull" and b[1] == path for b in facts) and not absorbs(ctx, use, "TypeError"):
+                                badu = use
+                                break
+                        if badu is not None:
+                            R.violation("C03.R6", f.short, kk, loc(pf, badu), f"`{kw.arg}` is None when {wn}; the parser uses `{path}` at line {badu.lineno} without a None test: a half-typed statement makes parse() raise TypeError")
+                        else:
+                            R.ok("C03.R6", f.short, kk, loc(f, r), "field may be None; the parser tests it before use")
+                nullable = why_nullable(x)
+                k = f"{f.name}: payload of tag {tag!r} ({unparse(x)[:30]})"
+                if nullable is None:
+                    R.ok("C03.R6", f.short, k, loc(f, r), "payload is never None")
+                    continue
+                arm = arms.get(tag)
+                if arm is None:
+                    R.undecided("C03.R6", f.short, k, loc(f, r), "no arm for this tag in the parser")
+                    continue
+                bad = None
+                for n in ast.walk(ast.Module(body=arm.body, type_ignores=[])):
+                    use = None
+                    if isinstance(n, ast.For) and isinstance(n.iter, ast.Name) and n.iter.id == payload:
+                        use = n.iter
+                    elif isinstance(n, (ast.Subscript, ast.Attribute)) and isinstance(n.value, ast.Name) and n.value.id == payload and isinstance(n.ctx, ast.Load):
+                        use = n
+                    elif isinstance(n, ast.Call) and isinstance(n.func, ast.Name) and n.func.id in ("len", "iter", "list", "tuple", "sorted", "enumerate") and n.args and isinstance(n.args[0], ast.Name) and n.args[0].id == payload:
+                        use = n
+                    if use is None:
+                        continue
+                    facts = Fp.at(use) or Fp.at(n) or set()
+                    if not any(b[0] == "nonnull" and b[1] == payload for b in facts) and not absorbs(ctx, use, "TypeError"):
+                        bad = use
+                        break
+                if bad is not None:
+                    R.violation("C03.R6", f.short, k, loc(pf, bad), f"{nullable}, the reader hands it on as the payload of {tag!r}, and the parser uses it at line {bad.lineno} without a None test: a half-typed statement makes parse() raise TypeError and the file is not indexed")
+                else:
+                    R.ok("C03.R6", f.short, k, loc(f, r), "payload may be None; the parser tests it before use")
+
+
 def run(ctx, R):
     r1(ctx, R)
     r2(ctx, R)
     r3(ctx, R)
     r4(ctx, R)
+    r5(ctx, R)
+    r6(ctx, R)
